@@ -124,6 +124,77 @@ impl<'a, TC: Configuration> Forge<'a, TC> {
         })
     }
 
+    /// like `update_proof`, but when the previous version was never retired in the tree the server simply
+    /// leaves the previous-version part out (the second value says whether it did)
+    pub fn update_proof_omitting(&mut self, label: &[u8], version: u64, value: &[u8], epoch: u64) -> Option<(UpdateProof, bool)> {
+        if let Some(p) = self.update_proof(label, version, value, epoch) {
+            return Some((p, false));
+        }
+        let (ev, el) = self.vrf(label, true, version);
+        let existence_proof = self.membership(&el)?;
+        Some((
+            UpdateProof {
+                epoch,
+                version,
+                value: AkdValue(value.to_vec()),
+                existence_vrf_proof: ev,
+                existence_proof,
+                previous_version_vrf_proof: None,
+                previous_version_proof: None,
+                commitment_nonce: self.nonce(label, version, value),
+            },
+            true,
+        ))
+    }
+
+    /// a history answer for `entries` in which every part the tree cannot support is left out instead:
+    /// previous-version parts of versions whose predecessor was never retired, past markers that are absent,
+    /// future markers that are present. None if nothing had to be left out (then `history` says it all) or
+    /// if a claimed version itself is not in the tree.
+    pub fn history_omitting(&mut self, label: &[u8], entries: &[(u64, Vec<u8>, u64)], current_epoch: u64) -> Option<HistoryProof> {
+        let mut omitted = false;
+        let mut update_proofs = vec![];
+        for (v, val, e) in entries {
+            let (p, o) = self.update_proof_omitting(label, *v, val, *e)?;
+            omitted |= o;
+            update_proofs.push(p);
+        }
+        let start = entries.iter().map(|e| e.0).min()?;
+        let end = entries.iter().map(|e| e.0).max()?;
+        if start == 0 || end > current_epoch {
+            return None;
+        }
+        let (past, future) = akd_core::utils::get_marker_versions(start, end, current_epoch);
+        let mut past_marker_vrf_proofs = vec![];
+        let mut existence_of_past_marker_proofs = vec![];
+        for v in past {
+            let (pv, pl) = self.vrf(label, true, v);
+            match self.membership(&pl) {
+                Some(m) => {
+                    past_marker_vrf_proofs.push(pv);
+                    existence_of_past_marker_proofs.push(m);
+                }
+                None => omitted = true,
+            }
+        }
+        let mut future_marker_vrf_proofs = vec![];
+        let mut non_existence_of_future_marker_proofs = vec![];
+        for v in future {
+            let (fv, fl) = self.vrf(label, true, v);
+            match self.nonmembership(&fl) {
+                Some(m) => {
+                    future_marker_vrf_proofs.push(fv);
+                    non_existence_of_future_marker_proofs.push(m);
+                }
+                None => omitted = true,
+            }
+        }
+        if !omitted {
+            return None;
+        }
+        Some(HistoryProof { update_proofs, past_marker_vrf_proofs, existence_of_past_marker_proofs, future_marker_vrf_proofs, non_existence_of_future_marker_proofs })
+    }
+
     /// a history answer claiming the versions `entries` (newest first: (version, value, epoch)),
     /// with the marker proofs the verifier will ask for at `current_epoch`; None if the tree
     /// does not support an honest-looking assembly
